@@ -320,4 +320,42 @@ def build(S, tier):
         S.prove(f"{label}#ensures.entry_stored_with_its_parameters@{i}", ok, kind="ensures", why=repr(ms and ms.attrs))
         S.prove(f"{label}#inv.total_minimum_count_at_most_cycles@{i}", c0 + c1 + cn <= M_, hyps=p.pc)
     S.prove(f"{label}#cover.both_outcomes", outcomes == {"raise", "ok"}, kind="cover", why=str(outcomes))
+
+    # ------------------------------------------------------------------ the step number the schedule sees, through the real run loops
+    # (step is a lazy generator: what yield_moves reads is the step_count at the time the step is consumed)
+    for entry in ("run", "srun", "irun"):
+        def run_loop(I, entry=entry):
+            from pyvc.models.ser_model import AtomsSer
+            I.loader.models["ase.atoms"].attrs["Atoms"] = Builtin("Atoms", lambda I_, a, k: AtomsSer(I_, 0, tag="empty"))
+            sim = I.call(I.get_class("quansino.mc.canonical.Canonical"), [AtomsSer(I, 2)], {"seed": 1, "max_cycles": 1})
+            k0 = I.path.fresh("k0", "int")
+            I.path.assume(k0.t >= 0)
+            sim.attrs["step_count"] = k0                       # a run may start from any step (restart, second run)
+            seen = []
+            I.contracts[MC + ".yield_moves"] = lambda I_, fv, a, k: (seen.append(a[0].attrs["step_count"]) or [])
+            g = I.call(I.getattr(sim, entry), [3], {})
+            if entry == "irun":
+                for st in I.iterate(g):
+                    for _ in I.iterate(st):
+                        pass
+            elif entry == "srun":
+                for st in I.iterate(g):
+                    pass
+            return dict(seen=seen, k0=k0, end=sim.attrs["step_count"])
+
+        label = f"quansino.mc.driver.Driver.irun[via {entry}]"
+        for i, p in enumerate(S.explore(run_loop, label)):
+            S.adopt(p, prefix=f"[{entry}]")
+            if p.status != "return":
+                if p.status == "raise":
+                    S.prove(f"{label}#noraise@{i}", False, kind="noraise", why=repr(p.exc))
+                continue
+            v = p.value
+            S.prove(f"{label}#ensures.three_steps_scheduled@{i}", len(v["seen"]) == 3, kind="ensures", why=f"{len(v['seen'])} schedules for run(3)")
+            if len(v["seen"]) == 3:
+                S.prove(f"{label}#ensures.schedule_of_step_j_sees_step_count_j@{i}", z3.And([to_z3(x, "int") == v["k0"].t + j for j, x in enumerate(v["seen"])]), hyps=p.pc,
+                        why="the interval test of a step is evaluated with the number of completed steps (a move with interval n is due on multiples of n)")
+            S.prove(f"{label}#ensures.counter_advanced_by_the_number_of_steps@{i}", to_z3(v["end"], "int") == v["k0"].t + 3, hyps=p.pc)
+    S.register_function(S.new_interp(), "quansino.mc.driver.Driver.irun", 3)
+    S.register_function(S.new_interp(), "quansino.mc.core.MonteCarlo.step", 1)
     return meta
